@@ -19,6 +19,19 @@ CLAIMED = {
  'C04': dict(text="An independent evaluator of the FPy core language written in Lean from the semantics documents (fuel-indexed big-step: contexts as an evaluator argument so `with` cannot leak, heap of shared lists, callee-context rule, unrounded literals/arguments, lazy comparison chains, strict slices/zip, live-list iteration) with the documented rules pinned as theorems; every rounded node goes through the C01/C02 number model. Tie: type-directed random programs printed both as FPy source (real parser + bytecode interpreter) and as S-expressions (Lean evaluator), compared on inputs incl. specials under absent/narrow/REAL caller contexts; the AST the real parser produced is exported and compared with the program text the generator wrote.",
              note=TB + "; byte.py compiling to Python AST is not proved correct (tied by correspondence); static context-constructor expressions are evaluated by the harness when exporting; programs outside the modelled subset are counted and skipped.",
              tech="Lean 4 executable semantics + rule theorems; differential execution real interpreter vs Lean evaluator", ref="5/C04"),
+
+ 'C02': dict(text="Lean theorems: the load-bearing round-to-odd lemma (two guard digits + sticky bit re-round exactly, for every mode; one guard digit is refuted), lifted through every deterministic context family; add/sub/mul/fma/neg/fabs/fmod/pow results = the exact RealFloat result rounded once; exactness under the real context; integer sqrt/cbrt specifications and 'floor + sticky rounds like the real value'; IEEE special-value tables. The MPFR toward-zero result and ternary are COMPUTED in integers by the model, not assumed. Tie: real fpy2.ops vs the model on every operand spelling x contexts far narrower than the operands, concentrated within one sticky bit of target breakpoints; independent exact-rational Spec oracle (polynomial enclosures for roots).",
+             note=TB + "; div's lift through the exponent search is partial; remainder/fdim/copysign/negative powers covered by the harness only; MPFR exponent range not modelled (known finding C02-F3).",
+             tech="Lean 4 proof + model-vs-code correspondence + rational Spec oracle", ref="5/C02"),
+ 'C05': dict(text="Lean theorems (51): RealFloat +,-,*,**,neg,abs,pos are homomorphic to the rationals they denote for ANY encoding; signed-zero rules; compare/==/hash-class coherence across Float, RealFloat, int, float, Fraction in both operand orders; split/normalize/is_more_significant/bit/int()/float() exactness incl. when they must raise; Float layer equals the extended-real tables. Tie: exhaustive (s, exp in [-4,4], c <= 31) pairs over type combinations + wide random encodings against the real operators and an exact Fraction Spec oracle.",
+             note=TB + "; Python's own hash() on int/Fraction is trusted to respect equality.",
+             tech="Lean 4 proof (core Rat lemmas, grind/omega) + exhaustive small-operand correspondence + Spec oracle", ref="5/C05"),
+ 'C16': dict(text="Lean theorems (44) for every valid format parameter and unbounded widths: EFloat/IEEE decode = published layout for all NaN kinds/inf flags/offsets; encode/decode round trips incl. signed zeros, infinities and NaN up to payload; encode < 2^nbits; two's-complement, sign-magnitude and exponential round trips; float and fixed ordinals are the value order (strictly monotone, bijective, zeros merged), from/to ordinal inverse, next_up = ordinal + 1; normalize keeps the value; maxval is the largest finite code. Tie: EVERY bit pattern of every format with nbits <= 6 (8 thorough) on the real code, the model and a first-principles layout decoder.",
+             note=TB + "; minval/representable_iff_decoded (<-) are checked exhaustively, not proved.",
+             tech="Lean 4 proof + exhaustive bit-pattern correspondence + layout Spec oracle", ref="5/C16"),
+ 'C19': dict(text="Lean theorems (22) for every tree, edit log and path: forwarding a cursor across a log either errors or resolves to a statement that descends from the one named (never unrelated), untouched statements are unchanged, replaced runs map exactly to the replacing run, chains of passes compose; site selection: index j < k selects site j only, other indices rejected, None selects all, every candidate is a site or a refusal. Tie: random trees x well/ill-formed logs x paths against the real EditLog.forward and an independent tag-tracking Spec oracle; end-to-end on real strategies with planted tags, all where= values, cursors forwarded across 1-3 strategies.",
+             note=TB + "; the per-strategy candidate loops are abstracted in the Sites model and exercised end to end.",
+             tech="Lean 4 proof (induction over trees/logs) + correspondence + tag-identity Spec oracle", ref="5/C19"),
 }
 NA_REASON = "check not built yet (work in progress; see DESIGN.md section 8 build order)"
 
